@@ -26,15 +26,20 @@ func (m *Mutex) Lock() {
 		m.real.Lock()
 		return
 	}
+	vsched.Touch(m)
 	s.Point("Lock", m, func() bool { return !m.held })
 	m.held = true
 }
+
+// ResetForExecution clears the model state (see vsched.Touch).
+func (m *Mutex) ResetForExecution() { m.held = false }
 
 func (m *Mutex) TryLock() bool {
 	s := vsched.Active()
 	if s == nil {
 		return m.real.TryLock()
 	}
+	vsched.Touch(m)
 	s.Point("TryLock", m, nil)
 	if m.held {
 		return false
@@ -96,6 +101,7 @@ func (m *RWMutex) Lock() {
 		m.real.Lock()
 		return
 	}
+	vsched.Touch(m)
 	s.Point("Lock.w", m, func() bool { return !m.wHeld })
 	m.wHeld = true
 	m.announce = true
@@ -103,11 +109,18 @@ func (m *RWMutex) Lock() {
 	m.writer = true
 }
 
+// ResetForExecution clears the model state (see vsched.Touch).
+func (m *RWMutex) ResetForExecution() {
+	m.wHeld, m.announce, m.writer, m.readers = false, false, false, 0
+	m.waiting, m.granted, m.rheld, m.nextTok = nil, nil, nil, 0
+}
+
 func (m *RWMutex) TryLock() bool {
 	s := vsched.Active()
 	if s == nil {
 		return m.real.TryLock()
 	}
+	vsched.Touch(m)
 	s.Point("TryLock", m, nil)
 	if m.wHeld || m.readers > 0 {
 		return false
@@ -150,6 +163,7 @@ func (m *RWMutex) RLock() {
 	if s.Aborting() {
 		return
 	}
+	vsched.Touch(m)
 	tok := m.nextTok
 	m.nextTok++
 	registered := false
@@ -190,6 +204,7 @@ func (m *RWMutex) TryRLock() bool {
 	if s == nil {
 		return m.real.TryRLock()
 	}
+	vsched.Touch(m)
 	s.Point("TryRLock", m, nil)
 	if m.announce {
 		return false
